@@ -390,7 +390,7 @@ class Project:
             c = self.cls(module, cn)
             if fn in c.methods:
                 return c.methods[fn]
-            raise AnalysisError(f"anchor method {module}:{name} not found")
+            return self.method(c, fn)
         if name in m.functions:
             return m.functions[name]
         g = self._recover_function(m, name)
@@ -449,9 +449,10 @@ class Project:
         uniq = {}
         for r, g in cands:              # an override shadows the methods it overrides (pool is in MRO order)
             uniq.setdefault(g.name, (r, g))
-        if len(uniq) != 1:
-            return None
-        g = list(uniq.values())[0][1]
+        ranked = sorted(uniq.values(), key=lambda t: -t[0])
+        if not ranked or (len(ranked) > 1 and ranked[0][0] < ranked[1][0] + 0.03):
+            return None                 # nothing close, or two equally plausible candidates
+        g = ranked[0][1]
         if g.is_abstract:
             return None
         if not hasattr(self, "recovered"):
